@@ -13,6 +13,13 @@
 // Part 2c (holes.go): trees with holes of 4 KiB-1 ... 2 MiB read with one ReadAt / Read /
 // io.ReadFull call into buffers pre-filled with non-zero bytes (4 KiB+1, 8 KiB, 64 KiB,
 // 1 MiB, seeded sizes) and through io.CopyBuffer with a reused buffer.
+// Part 2d (treefaults.go): every tree of Parts 2 and 2c again through a fetcher that fails
+// one seeded fetch once: reads on the same FileReader and on a fresh one return an error
+// or exactly the denoted bytes.
+// Part 3b (dirfaults.go): every such directory again through a fetcher that fails one
+// seeded fetch once (k-th static-set blob of the walk or a member entry; error, not-exist,
+// truncated body, context cancelled): the failing call, later calls on the SAME DirReader
+// and a fresh reader each return an error or the complete exact listing.
 // Part 3 (dirs.go): static-set splitting with a lowered threshold and, for a few large
 // directories, with perkeep's own threshold (real sha224 / sha256 / sha1 refs): every
 // static-set blob the writer produces is a schema blob within the size limit,
@@ -185,6 +192,11 @@ func requireAll(r *ev.Run) {
 		"readat-hole-midpart@>=2^31", "readat-blob-partstart-crossing@>=2^31", "seek+read@>=2^32", "seek+read@>=2^31",
 		"readat-dirty:buf=4Ki+1", "readat-dirty:buf=8Ki", "readat-dirty:buf=64Ki", "readat-dirty:buf=1Mi",
 		"readat-dirty:inside-hole@>=2^32", "readat-dirty:runs-into-hole@>=2^31", "readat-dirty:leaves-hole-after>4Ki@>=2^32", "seek+read-dirty>4Ki")
+	// part 2d
+	r.Require("tree_fault", "bytes-schema", "data-blob", "open-failed", "fresh-reader-afterwards")
+	r.Require("tree_fault_kind", ffKinds...)
+	r.Require("tree_fault_first_read", "error")
+	r.Require("tree_fault_same_reader_again", "exact-bytes")
 	// part 2c
 	r.Require("hole_tree_shape", "hole>4Ki", "hole>=64Ki", "hole>=1Mi", "root=file", "root=bytes", "depth=1", "depth=2", "depth=3", "bytes-offset", "bytes-short", "bytes-full")
 	r.Require("hole_read",
@@ -200,6 +212,12 @@ func requireAll(r *ev.Run) {
 	r.Require("dir_readdir", "all@lowered-threshold", "first-page@lowered-threshold")
 	r.Require("dir_production", "split", "split-flat/rest", "sha256-refs", "sha224-refs", "distinct", "entries", "readdir")
 	r.Require("dir_readdir", "all@production-threshold", "first-page@production-threshold")
+	// part 3b
+	r.Require("dir_fault", "top-set", "first-subset", "later-subset", "first-subset(inner)", "later-subset(inner)", "member-entry",
+		"same-reader-listed-exactly-after-later-fetch-failed", "fresh-reader-afterwards")
+	r.Require("dir_fault_kind", ffKinds...)
+	r.Require("dir_fault_reader", "NewDirReader", "DirectoryEntry.Directory")
+	r.Require("dir_fault_same_reader_again", "StaticSet:complete-listing", "Readdir:complete-listing")
 	if r.Thorough() {
 		r.Require("dir_production", "single", "split-flat/exact", "sha1-refs", "mixed-refs", "dupes", "all-same")
 	}
